@@ -44,17 +44,17 @@ Proof.
   fold (sort_table t). rewrite insert_sorted_in. rewrite IH. cbn. intuition.
 Qed.
 
-Lemma match_bind_unfold : forall t keys, match_bind t keys =
+Lemma match_table_unfold : forall t keys, match_table t keys =
   fold_left (fun acc e => (if entry_exact keys e then snd e else fst acc, snd acc || entry_ext keys e)) (sort_table t) (no_bind, false).
 Proof. reflexivity. Qed.
 
-(* an exact match returned by matchBind is the bind of an entry whose sequence is
-   exactly the keys; none is returned when no entry is *)
-Theorem match_bind_exact : forall t keys,
-  (fst (match_bind t keys) = no_bind /\ forall e, In e t -> entry_exact keys e = false) \/
-  (exists e, In e t /\ entry_exact keys e = true /\ fst (match_bind t keys) = snd e).
+(* an exact match of the table scan is the bind of an entry whose sequence is exactly
+   the keys; none is returned when no entry is *)
+Theorem match_table_exact : forall t keys,
+  (fst (match_table t keys) = no_bind /\ forall e, In e t -> entry_exact keys e = false) \/
+  (exists e, In e t /\ entry_exact keys e = true /\ fst (match_table t keys) = snd e).
 Proof.
-  intros t keys. rewrite match_bind_unfold.
+  intros t keys. rewrite match_table_unfold.
   destruct (match_fold_exact (sort_table t) keys (no_bind, false)) as [[Hn Hr] | (e & Hin & He & Hr)].
   - left. split; [exact Hr|]. intros e Hin. apply sort_table_in in Hin.
     destruct (entry_exact keys e) eqn:E; [|reflexivity].
@@ -63,13 +63,62 @@ Proof.
   - right. exists e. split; [apply sort_table_in; exact Hin | split; assumption].
 Qed.
 
-(* the prefix flag is set iff the keys are a proper prefix of some entry's sequence *)
-Theorem match_bind_ext : forall t keys,
-  snd (match_bind t keys) = true <-> exists e, In e t /\ entry_ext keys e = true.
+(* the prefix flag of the table scan is set iff the keys are a proper prefix of some entry's sequence *)
+Theorem match_table_ext : forall t keys,
+  snd (match_table t keys) = true <-> exists e, In e t /\ entry_ext keys e = true.
 Proof.
-  intros t keys. rewrite match_bind_unfold.
+  intros t keys. rewrite match_table_unfold.
   rewrite (match_fold_ext (sort_table t) keys (no_bind, false)). cbn [snd orb].
   rewrite existsb_exists. split; intros (e & Hin & He); exists e; (split; [apply sort_table_in; exact Hin | exact He]).
+Qed.
+
+(* the keys start a character encoded on several bytes in a keymap where characters
+   insert themselves *)
+Definition uni_keys (t : table) (keys : list Z) : bool :=
+  match keys with k0 :: _ => (128 <=? k0) && inserts_text t | [] => false end.
+
+(* matchBind: what the table says; and where the table binds nothing to the keys, the
+   complete encoding of a character runs self-insert *)
+Theorem match_bind_exact : forall t keys,
+  (fst (match_bind t keys) = no_bind /\ forall e, In e t -> entry_exact keys e = false) \/
+  (exists e, In e t /\ entry_exact keys e = true /\ fst (match_bind t keys) = snd e) \/
+  (fst (match_bind t keys) = self_insert_bind /\ is_bound (fst (match_table t keys)) = false /\
+   uni_keys t keys = true /\ utf8_char keys = true).
+Proof.
+  intros t keys. pose proof (match_table_exact t keys) as T. unfold match_bind, uni_keys.
+  destruct (match_table t keys) as [m ext]. cbn [fst] in *.
+  destruct keys as [|k0 r]; [destruct T as [T | T]; [left | right; left]; exact T|].
+  destruct ((128 <=? k0) && inserts_text t); [|destruct T as [T | T]; [left | right; left]; exact T].
+  destruct (negb (full_rune (k0 :: r))); [destruct T as [T | T]; [left | right; left]; exact T|].
+  destruct (negb (is_bound m) && utf8_char (k0 :: r)) eqn:E; [|destruct T as [T | T]; [left | right; left]; exact T].
+  apply andb_true_iff in E. destruct E as [E1 E2].
+  right. right. cbn [fst]. split; [reflexivity|]. split; [destruct (is_bound m); [discriminate | reflexivity]|].
+  split; [reflexivity | exact E2].
+Qed.
+
+(* the prefix flag: some entry's sequence extends the keys, or the keys are the incomplete
+   encoding of a character in a keymap where characters insert themselves *)
+Theorem match_bind_ext : forall t keys,
+  snd (match_bind t keys) = true <->
+  (exists e, In e t /\ entry_ext keys e = true) \/ (uni_keys t keys = true /\ full_rune keys = false).
+Proof.
+  intros t keys. rewrite <- match_table_ext. unfold match_bind, uni_keys.
+  destruct (match_table t keys) as [m ext]. cbn [snd].
+  destruct keys as [|k0 r]; [cbn [snd]; intuition discriminate|].
+  destruct ((128 <=? k0) && inserts_text t); [|cbn [snd]; intuition discriminate].
+  destruct (full_rune (k0 :: r)); cbn [negb].
+  - destruct (negb (is_bound m) && utf8_char (k0 :: r)); cbn [snd]; intuition discriminate.
+  - cbn [snd]. intuition.
+Qed.
+
+(* no macro comes from the fallback *)
+Lemma match_bind_macro : forall t keys,
+  snd (fst (match_bind t keys)) = false \/ exists e, In e t /\ fst (match_bind t keys) = snd e.
+Proof.
+  intros t keys. destruct (match_bind_exact t keys) as [[H _] | [(e & Hin & _ & H) | [H _]]].
+  - left. rewrite H. reflexivity.
+  - right. exists e. split; assumption.
+  - left. rewrite H. reflexivity.
 Qed.
 
 (* ---- one token of dispatchKeys as a function of the buffered keys *)
